@@ -607,6 +607,27 @@ func finish(a *Agg, t0 time.Time) int {
 	}
 	if len(sets) > 0 {
 		cov["distinct_observed"] = sets
+		// numeric sets also report their largest element (e.g. the slowest convergence seen)
+		maxima := map[string]int{}
+		for k, v := range a.Sets {
+			mx, all := 0, len(v) > 0
+			for e := range v {
+				n, err := strconv.Atoi(e)
+				if err != nil {
+					all = false
+					break
+				}
+				if n > mx {
+					mx = n
+				}
+			}
+			if all {
+				maxima[k] = mx
+			}
+		}
+		if len(maxima) > 0 {
+			cov["largest_observed"] = maxima
+		}
 	}
 	if p.Exhaustive != nil && p.Exhaustive(a.Tier) {
 		cov["exhaustive"] = true
